@@ -561,6 +561,79 @@ def build_case(ctx, rng, exact, numba, method):
     return term, desc
 
 
+def unsort(rng, n, style=None):
+    """index orders in which a caller may hand x to utils.pspline_smooth / SplineBasis"""
+    style = style or rng.choice(['reversed', 'shuffled', 'two-scans', 'zigzag'])
+    idx = list(range(n))
+    if style == 'reversed':
+        idx = idx[::-1]
+    elif style == 'shuffled':
+        rng.shuffle(idx)
+    elif style == 'two-scans':
+        a = sorted(rng.sample(range(n), max(1, n // 2)))
+        b = [i for i in range(n) if i not in a]
+        idx = (a + b) if rng.random() < 0.5 else (b + a)
+    else:
+        lo, hi, idx = 0, n - 1, []
+        while lo <= hi:
+            idx.append(hi)
+            if lo < hi:
+                idx.append(lo)
+            lo, hi = lo + 1, hi - 1
+    return style, np.array(idx)
+
+
+def build_direct_case(ctx, rng, exact, numba):
+    import pybaselines._spline_utils as su
+    inp = gen_inputs(rng, exact)
+    if inp['dmax'] < 1:
+        return None
+    d = rng.randint(1, inp['dmax'])
+    n = len(inp['x'])
+    if rng.random() < 0.3:      # repeated x values
+        j = rng.randrange(n)
+        inp['x'][rng.randrange(n)] = inp['x'][j]
+        if exact:
+            inp['x'][0], inp['x'][-1] = 0.0, float(inp['num_knots'] - 1)
+    style, perm = unsort(rng, n)
+    x, y, w = np.array(inp['x'])[perm], np.array(inp['y'])[perm], np.array(inp['w'])[perm]
+    lam = float(inp['lam'])
+    desc = {'kind': 'direct', 'numba': numba, 'exact': exact, 'x': x.tolist(), 'y': y.tolist(), 'w': w.tolist(),
+            'num_knots': inp['num_knots'], 'spline_degree': inp['k'], 'diff_order': d, 'lam': lam, 'order': style}
+    try:
+        with Capture(numba=numba) as cap:
+            basis = su.SplineBasis(x, inp['num_knots'], inp['k'])
+            pspline = su.PSpline(basis, lam, d)
+            with warnings.catch_warnings():
+                warnings.simplefilter('ignore')
+                pspline.solve_pspline(y, w)
+    except Exception as exc:  # noqa
+        name = type(exc).__name__
+        ctx.hist[f'raised:{name}'] = ctx.hist.get(f'raised:{name}', 0) + 1
+        if name != 'LinAlgError':
+            ctx.fail(f'raises:direct:{name}', f'SplineBasis/PSpline.solve_pspline on unsorted x raised {name}: {exc}', desc)
+        return None
+    rec0 = cap.calls[0]
+    if 'lhs' not in rec0 or rec0['use_numba'] != numba:
+        ctx.broke('correspondence:path', f'direct PSpline: use_numba={rec0["use_numba"]} (wanted {numba})')
+        return None
+    B = np.asarray(basis.basis.toarray(), dtype=float)
+    params = {'diff_order': d, 'lam': lam, 'allow_lower': True}
+    term = case_term('asls', rec0, cap.calls, [], B, params)
+    ctx.case(('direct', numba, exact, inp['k'], rec0['M'], d, lam, tuple(x), tuple(y), tuple(w)), nontrivial=n > 2,
+             kind=f'{"numba" if numba else "sparse"}:{"exact" if exact else "real"}:direct-unsorted:{style}:deg{inp["k"]}:d{d}')
+    ctx.traces += 1
+    if exact:
+        err = exact_doc_check(ctx, 'direct', cap, B, params, desc)
+        if err:
+            ctx.fail(f'exact-system:direct:{"numba" if numba else "sparse"}',
+                     f'PSpline.solve_pspline on x in {style} order (degree {inp["k"]}, diff_order {d}): {err}', desc)
+    desc2 = dict(desc)
+    desc2.update(method='PSpline.solve_pspline(direct)', banded_solver=None, kw={'order': style, 'spline_degree': inp['k'],
+                                                                                 'num_knots': inp['num_knots'], 'diff_order': d})
+    return term, desc2
+
+
 def correspondence(ctx):
     rng = ctx.rng
     has_numba = numba_available()
@@ -577,14 +650,18 @@ def correspondence(ctx):
         if has_numba:
             for _ in range(reps_real):
                 plans.append((False, True, method))
-    plans.append((True, False, 'pspline_smooth'))
     terms = []
     for exact, numba, method in plans:
-        if method == 'pspline_smooth':
-            continue
         res = build_case(ctx, rng, exact, numba, method)
         if res is not None:
             terms.append(res)
+    # SplineBasis(x in the caller's order) + PSpline + solve_pspline directly (what utils.pspline_smooth does)
+    for i in range(ctx.n(24, 80)):
+        for numba in ([True, False] if has_numba else [False]):
+            exact = (i % 2 == 0) or not numba
+            res = build_direct_case(ctx, rng, exact, numba)
+            if res is not None:
+                terms.append(res)
     if len(terms) < len(plans) // 2:
         ctx.broke('correspondence:coverage', f'only {len(terms)} of {len(plans)} planned captures succeeded')
     if terms:
@@ -607,7 +684,7 @@ def correspondence(ctx):
             first = chunk[idxs[0]][1] if idxs and idxs[0] < len(chunk) else None
             ctx.broke(f'correspondence:assembly-shard{s // per}',
                       f'model and implementation disagree on the banded system handed to the solver: {vals}; first case: '
-                      f'{ {k: first[k] for k in ("method", "numba", "exact", "banded_solver", "kw")} if first else None}')
+                      f'{ {k: first.get(k) for k in ("method", "numba", "exact", "banded_solver", "kw")} if first else None}')
             ctx.extra.setdefault('first_mismatch', first)
     ctx.obligations.append('correspondence:solve_pspline-assembly(bit-exact)')
     if not bad_any and not any(n.startswith('correspondence:') for n, _ in ctx.broken):
@@ -883,11 +960,110 @@ def check_sequence(ctx, numba, banded_solver, x, steps):
     return nbad
 
 
+def check_smooth(ctx, numba, x, y, w, kw, desc):
+    """utils.pspline_smooth on x in the caller's order: returned spline AND returned tck against the independent
+    dense Cox-de Boor system on the same points."""
+    from pybaselines import utils
+    from scipy.interpolate import BSpline
+    k, nk, d, lam = kw['spline_degree'], kw['num_knots'], kw['diff_order'], kw['lam']
+    M = nk + k - 1
+    try:
+        with Capture(numba=numba):
+            with warnings.catch_warnings():
+                warnings.simplefilter('ignore')
+                fit, tck = utils.pspline_smooth(y, x, lam=lam, num_knots=nk, spline_degree=k, diff_order=d, weights=w)
+    except Exception as exc:  # noqa
+        name = type(exc).__name__
+        ctx.hist[f'oracle-raised:{name}'] = ctx.hist.get(f'oracle-raised:{name}', 0) + 1
+        if name != 'LinAlgError':
+            ctx.fail(f'raises:pspline_smooth:{name}', f'pspline_smooth raised {name}: {exc}', desc)
+        return 0
+    ww = np.ones(len(x)) if w is None else np.asarray(w, dtype=float)
+    t = ref_knots(x, nk, k)
+    B = cox_de_boor(x, t, k)
+    D = np.diff(np.eye(M), d, axis=0)
+    A = B.T @ (ww[:, None] * B) + lam * (D.T @ D)
+    b = B.T @ (ww * y)
+    fit = np.asarray(fit, dtype=float)
+    knots, coef, deg = tck
+    coef = np.asarray(coef, dtype=float)
+    ctx.case(('smooth', numba, k, nk, d, float(lam), desc.get('order'), len(x), float(y[0])), nontrivial=True,
+             kind=f'oracle:pspline_smooth:{desc.get("order")}')
+    what = None
+    cond = np.linalg.cond(A)
+    scale = float(np.max(np.abs(y))) + float(np.max(np.abs(fit))) + 1e-300
+    if int(deg) != k or len(knots) != len(t) or len(coef) != M or \
+            float(np.max(np.abs(np.asarray(knots) - t))) > 1e-9 * (float(np.max(np.abs(t))) + 1e-300):
+        what = f'returned tck is not the documented spline space (degree {deg}, {len(knots)} knots, {len(coef)} coefficients)'
+    if what is None and np.isfinite(cond) and cond < 1e12:
+        scaleA = np.abs(A) @ np.abs(coef) + np.abs(b)
+        resid = np.abs(A @ coef - b)
+        if not np.all(np.isfinite(coef)) or float(np.max(resid)) > 1e-9 * (float(np.max(scaleA)) + 1e-300):
+            r = int(np.argmax(resid))
+            what = (f'returned coefficients do not solve the documented P-spline system (row {r}: residual {resid[r]:.3e}, '
+                    f'scale {scaleA[r]:.3e})')
+    if what is None and float(np.max(np.abs(B @ coef - fit))) > 1e-9 * (scale + float(np.max(np.abs(coef)))):
+        what = 'returned spline differs from B c for the returned coefficients'
+    if what is None:
+        ev = BSpline(np.asarray(knots, dtype=float), coef, int(deg), extrapolate=True)(x)
+        if float(np.max(np.abs(ev - fit))) > 1e-9 * (scale + float(np.max(np.abs(coef)))):
+            what = 'returned tck evaluated with scipy BSpline differs from the returned spline'
+    if what is None and np.isfinite(cond) and cond < 1e8:
+        ref = B @ np.linalg.solve(A, b)
+        tolf = 1e4 * cond * EPS * scale + 1e-12
+        if float(np.max(np.abs(ref - fit))) > tolf:
+            what = (f'returned spline differs from the independent dense P-spline solve by '
+                    f'{float(np.max(np.abs(ref - fit))):.3e} (tolerance {tolf:.3e}, cond {cond:.2e})')
+    if what:
+        ctx.fail(f'pspline_smooth:{"sorted" if desc.get("order") == "sorted" else "unsorted-x"}',
+                 f'utils.pspline_smooth (x {desc.get("order")}, degree {k}, num_knots {nk}, diff_order {d}, '
+                 f'{"numba" if numba else "sparse"} path): {what}', desc)
+        return 1
+    return 0
+
+
+def smooth_case(ctx, rng, numba):
+    k = rng.randint(0, 5)
+    nk = rng.choice([2, 3, 4, 5, 8, 12, 20])
+    M = nk + k - 1
+    if M < 2:
+        return 0
+    d = rng.randint(1, min(4, M - 1))
+    n = rng.randint(8, 60)
+    base = rng.choice(['uniform', 'random', 'clustered'])
+    if base == 'uniform':
+        x = np.linspace(rng.uniform(-5, 0), rng.uniform(1, 50), n)
+    elif base == 'clustered':
+        c = rng.uniform(2, 8)
+        x = np.sort(np.array([0.0, 10.0] + [min(10.0, max(0.0, rng.gauss(c, 0.5))) for _ in range(n - 2)]))
+    else:
+        x = np.sort(np.array([rng.uniform(0, 10) for _ in range(n)]))
+    if rng.random() < 0.3:     # repeated x values
+        for _ in range(rng.randint(1, 4)):
+            x[rng.randrange(1, n - 1)] = x[rng.randrange(n)]
+        x = np.sort(x)
+    t_ = (x - x.min()) / (x.max() - x.min())
+    y = 1 + 2 * t_ + 5 * np.exp(-0.5 * ((t_ - rng.uniform(0.2, 0.8)) / 0.07) ** 2) + np.array([rng.gauss(0, 0.1) for _ in range(n)])
+    w = None if rng.random() < 0.3 else np.array([rng.choice([0.0, 1.0, rng.random()]) for _ in range(n)])
+    if w is not None and w.sum() == 0:
+        w[0] = 1.0
+    style, perm = ('sorted', np.arange(n)) if rng.random() < 0.1 else unsort(rng, n)
+    x, y = x[perm], y[perm]
+    if w is not None:
+        w = w[perm]
+    kw = dict(num_knots=nk, spline_degree=k, diff_order=d, lam=10.0 ** rng.uniform(-4, 6))
+    desc = {'kind': 'smooth', 'numba': numba, 'order': style, 'x': x.tolist(), 'y': y.tolist(),
+            'w': None if w is None else w.tolist(), 'kw': kw}
+    return check_smooth(ctx, numba, x, y, w, kw, desc)
+
+
 def search(ctx, budget):
     rng = ctx.rng
     has_numba = numba_available()
     reps = ctx.n(8, 20) * budget
     found = 0
+    for r in range(ctx.n(120, 500) * budget):
+        found += smooth_case(ctx, rng, has_numba and (r % 4 != 3))
     for r in range(ctx.n(40, 150) * budget):
         x, steps = gen_sequence(rng)
         if len(steps) >= 2:
@@ -944,6 +1120,20 @@ def replay(rep):
         def broke(self, *a):
             self.fails.append(a)
     c = _C()
+    if case.get('kind') == 'smooth':
+        check_smooth(c, case['numba'], np.array(case['x']), np.array(case['y']),
+                     None if case['w'] is None else np.array(case['w']), case['kw'], case)
+        print('replay pspline_smooth:', c.fails or 'property holds on this input')
+        return 1 if c.fails else 0
+    if case.get('kind') == 'direct':
+        import pybaselines._spline_utils as su
+        with Capture(numba=case['numba']) as cap:
+            basis = su.SplineBasis(np.array(case['x']), case['num_knots'], case['spline_degree'])
+            su.PSpline(basis, case['lam'], case['diff_order']).solve_pspline(np.array(case['y']), np.array(case['w']))
+        err = exact_doc_check(c, 'direct', cap, np.asarray(basis.basis.toarray(), dtype=float),
+                              {'diff_order': case['diff_order'], 'lam': case['lam']}, case)
+        print('replay direct:', err or 'property holds on this input (exact check; the bit-exact model comparison needs a full run)')
+        return 1 if err else 0
     if case.get('kind') == 'sequence':
         check_sequence(c, case['numba'], case['banded_solver'], np.array(case['x']), case['steps'])
         print('replay sequence:', c.fails or 'property holds on this input')
